@@ -13,6 +13,8 @@ import BpModel.Model.Emit
 import BpModel.Model.Memo
 import BpModel.Model.Lint
 import BpModel.Model.Lexer
+import BpModel.Model.Lex
+import BpModel.Model.Parse
 /-!
 # bpdrv — line-protocol driver for the executable model
 
@@ -218,6 +220,20 @@ def memoRun (ops : List (String × Nat × Int)) : List Int :=
       let (v, memo') := memo.get f (fun k => frozen.contains k) k
       ((vals, frozen, memo'), out ++ [v])
   (ops.foldl step (([], [], {}), [])).2
+
+def tokJson (t : Lex.Token) : Json :=
+  let (k, v) : String × Json := match t.kind with
+    | .newline => ("NEWLINE", Json.null) | .comment => ("COMMENT", Json.null)
+    | .boolType => ("BOOL_TYPE", Json.null) | .uintType n => ("UINT_TYPE", (n : Nat)) | .intType n => ("INT_TYPE", (n : Nat))
+    | .byteType => ("BYTE_TYPE", Json.null) | .hex v => ("HEX_LITERAL", (v : Nat)) | .int v => ("INT_LITERAL", (v : Nat))
+    | .boolLit b => ("BOOL_LITERAL", b) | .ident s => ("IDENTIFIER", s) | .kw s => (s.toUpper, s) | .str v => ("STRING_LITERAL", v)
+    | .plus => ("PLUS", Json.null) | .minus => ("MINUS", Json.null) | .times => ("TIMES", Json.null) | .divide => ("DIVIDE", Json.null)
+    | .lit c => (String.singleton c, Json.null)
+  Json.mkObj [("k", k), ("v", v), ("line", t.line)]
+
+def fileOfText (name text : String) : Front.File :=
+  let p := Parse.parseText text.toList
+  { name := name, proto := p.proto, items := p.items }
 
 def handle (op : String) (req : Json) : Except String Json := do
   match op with
@@ -450,6 +466,26 @@ def handle (op : String) (req : Json) : Except String Json := do
     | some (.error .invalidEscapingChar, _) => pure (Json.mkObj [("exc", "InvalidEscapingChar")])
     | some (.error .indexError, _) => pure (Json.mkObj [("exc", "IndexError")])
     | some (.error .outOfFuel, _) => pure (Json.mkObj [("exc", "hang")])
+  | "text.lex" =>
+    let t ← req.getObjValAs? String "text"
+    let (ts, e) := Lex.lex t.toList
+    let ej : Json := match e with
+      | none => Json.null
+      | some (.invalidToken line c) => Json.mkObj [("exc", "LexerError"), ("line", line), ("char", String.singleton c)]
+      | some (.invalidEscape line) => Json.mkObj [("exc", "InvalidEscapingChar"), ("line", line)]
+      | some (.invalidWidth line sg _) => Json.mkObj [("exc", if sg then "InvalidIntCap" else "InvalidUintCap"), ("line", line)]
+      | some .outOfFuel => Json.mkObj [("exc", "hang")]
+    pure (Json.mkObj [("tokens", .arr (ts.map tokJson).toArray), ("error", ej)])
+  | "text.check" =>
+    let fsj ← req.getObjValAs? (Array Json) "files"
+    let files ← fsj.toList.mapM fun f => do
+      pure (fileOfText (← f.getObjValAs? String "name") (← f.getObjValAs? String "text"))
+    let main ← req.getObjValAs? String "main"
+    let trad := match req.getObjValAs? Bool "traditional" with | .ok b => b | .error _ => false
+    match Front.checkProgram files main trad with
+    | .ok (.proto _ _ mem) => pure (Json.mkObj [("ok", .arr (entMsgs "" mem).toArray)])
+    | .ok _ => pure (Json.mkObj [("ok", .arr #[])])
+    | .error d => pure (Json.mkObj [("diag", Json.mkObj [("rule", d.rule), ("file", d.file), ("line", d.line)])])
   | _ => .error s!"unknown op {op}"
 
 def handleLine (line : String) : Json :=
